@@ -543,6 +543,31 @@ def edgeacc(repo, schema=None, sites=None):
                                         f"`{ast.unparse(n)[:80]}`: the action runs once per reference with the enclosing object as the "
                                         "key, so the edges recorded for earlier references of the same object are lost and a cycle "
                                         "through them is not found", f.file, n.lineno, f.qualname)
+    # the same mistake outside the traversal actions: `A[k] = B[k] | {x}` inside a loop accumulates only when A and B are
+    # the same mapping -- with B the *original* graph, every iteration starts again from the original set and only the
+    # last added edge survives (the helper that carries the dependencies of anonymous-bits members over to their aliases)
+    m = repo.mod("compiler/front_end/dependency_checker.py")
+    for f in m.top_funcs():
+        for n in walk_no_nested_funcs(f.node):
+            if not (isinstance(n, ast.Assign) and len(n.targets) == 1 and isinstance(n.targets[0], ast.Subscript)
+                    and isinstance(n.targets[0].value, ast.Name) and isinstance(n.value, ast.BinOp) and isinstance(n.value.op, ast.BitOr)):
+                continue
+            in_loop = False
+            node = n
+            while node is not None and node is not f.node:
+                node = m.parent(node)
+                if isinstance(node, (ast.For, ast.While)):
+                    in_loop = True
+            if not in_loop:
+                continue
+            res.instances += 1
+            left = n.value.left
+            base = left.value if isinstance(left, ast.Subscript) else (left.func.value if isinstance(left, ast.Call) and isinstance(left.func, ast.Attribute)
+                                                                         and left.func.attr == "get" else None)
+            if isinstance(base, ast.Name) and base.id != n.targets[0].value.id and ast.unparse(left.slice if isinstance(left, ast.Subscript) else left.args[0]) == ast.unparse(n.targets[0].slice):
+                res.add(f"{m.rel}|{f.name}|{n.targets[0].value.id}|restart", f"{f.name}: `{ast.unparse(n)[:80]}` inside a loop starts from "
+                        f"`{base.id}[...]` each time instead of the accumulated `{n.targets[0].value.id}[...]`: of several added edges only the "
+                        "last survives, so a field is ordered before something its condition mentions", m.rel, n.lineno, f.name)
     if res.instances < 3 and not res.findings:
         raise AnalysisError(f"only {res.instances} stores into dependency-graph parameters recognised")
     res.analysed = ["compiler/front_end/dependency_checker.py"]
